@@ -47,7 +47,8 @@ def exec_case(case):
     ref = P.Reference(names, case.get("cms_type", "linear"))
     res = P.run_sim(items, case["w"], names, assign=case.get("assign"),
                     choices=case.get("choices", ()), cms_type=case.get("cms_type", "linear"),
-                    kwargs={"state": {}}, want_objects=True, order=case.get("order"))
+                    kwargs={"state": {}}, want_objects=True, order=case.get("order"),
+                    cpu_count=case.get("cpu", 1))
     probs = judge(res, ref, items, "")
     if not probs and case.get("expect_outcome") is not None:
         if _norm(res["outcome"]) != case["expect_outcome"]:
@@ -123,11 +124,14 @@ def tree_task(arg):
         patterns = [tuple(i for i in range(w) if (mask >> i) & 1) for mask in range(1, 2**w)]
     for pat in patterns:
         k = len(pat)
-        case = dict(k=k, w=w, names=list(names), salt=salt, assign=list(pat))
-        probs, res = exec_case(case)
-        n += 1
-        if probs and len(out) < 3:
-            out.append((case, f"n_workers={w}, items only to workers {list(pat)}: {probs[0]}"))
+        # the machine's core count is an environment answer: 1, 2 and "plenty"
+        for cpu in ((1, 2, 64) if len(pat) == w else (1,)):
+            case = dict(k=k, w=w, names=list(names), salt=salt, assign=list(pat), cpu=cpu)
+            probs, res = exec_case(case)
+            n += 1
+            if probs and len(out) < 3:
+                out.append((case, f"n_workers={w} (cpu_count={cpu}), items only to workers "
+                                  f"{list(pat)}: {probs[0]}"))
     return dict(w=w, executions=n), out
 
 
@@ -377,6 +381,24 @@ def _explore(rep, salt, reals):
         rep.part(f"orders-k{st['k']}-w{st['w']}", executions=st["executions"])
     execs += on
     print(f"  (a') item orders x assignments: {on} executions", flush=True)
+    # (f) "any callback": a callback that raises on exactly one item (every item x every
+    #     assignment); n_records must be the sum of the returns of the items that succeeded
+    from . import c19 as _c19
+
+    fn = 0
+    kf, wf = (3, 2) if rep.tier == "quick" else (4, 3)
+    for bad in range(kf):
+        for assign in itertools.product(range(wf), repeat=kf):
+            plan = ["ok"] * kf
+            plan[bad] = "before"
+            case = dict(kind="raise", k=kf, w=wf, salt=salt, assign=list(assign), plan=plan)
+            probs, _res = _c19.exec_raise(case)
+            fn += 1
+            if probs and fn >= 0:
+                rep.violation(dict(case, via="c19"),
+                              f"callback raising on item {bad}, assign={list(assign)}: {probs[0]}")
+    execs += fn
+    rep.part("raising-callback", executions=fn)
     # (c)
     if rep.tier == "quick":
         djobs = [(3, 2, ("cms", "hh", "hll"), (0, 1, 0), salt, 1),
@@ -430,6 +452,11 @@ def replay(case):
         r = R(max_violations=10)
         generator_probe(r)
         return bool(r.violations), {"problems": [m for _, m in r.violations]}
+    if case.get("via") == "c19":
+        from . import c19 as _c19
+
+        probs, res = _c19.exec_raise(case)
+        return bool(probs), {"problems": probs[:3]}
     if "real" in case:
         probs, res = exec_case({k: v for k, v in case.items() if k != "real"})
         simo = _hexify(res["outcome"])
